@@ -27,6 +27,9 @@ GROUPS = [
     # additional property memberships (the file is decided by the first match above)
     ("+c03", r"^primitive::(End|Any)\[Parser\]|^combinator::ThenIgnore\[Parser\]|^combinator::Repeated\[(Parser|IterParser)\]", ["C03"]),
     ("+c07", r"^combinator::(ToSlice|ToSpan|MapWith|TryMap|TryMapWith|Validate|FoldlWith|FoldrWith|Filter)\[|^primitive::(Select|SelectRef)\[|^pratt::(Infix|Prefix|Postfix|Pratt)", ["C07"]),
+    ("+c01", r"^combinator::OrNot\[IterParser\]", ["C01"]),
+    ("+c04", r"^combinator::(Repeated|SeparatedBy|IntoIter|IterConfigure|TryIterConfigure|Collect|CollectExactly)\[Parser\]::go|^combinator::(NestedIn|Memoized)\[|^recursive::Recursive\[|^recovery::|^regex::Regex\[|^private::", ["C04"]),
+    ("+c05", r"^recovery::|^combinator::(SeparatedBy|Repeated)\[|^combinator::Validate\[|^combinator::NestedIn\[", ["C05"]),
     ("+c06", r"^primitive::(End|Just|OneOf|NoneOf|Any|AnyRef|Select|SelectRef|Custom)\[|^combinator::(Filter|TryMap|TryMapWith|Not)\[", ["C06"]),
 ]
 
